@@ -136,14 +136,27 @@ func vstub_errors_Is(err, target error) bool {
 	return false
 }
 
-// sync.Pool without per-P caches: Get allocates through New, Put drops.
+// sync.Pool without per-P caches, as a LIFO free list: Put keeps the object, the next Get hands it out again (that is
+// what makes "returned to the pool but still referenced" visible); an empty pool allocates through New.
+var vstubPools map[*stdsync.Pool][]any
+
 func vstub_sync_Pool_Get(p *stdsync.Pool) any {
+	if l := vstubPools[p]; len(l) > 0 {
+		x := l[len(l)-1]
+		vstubPools[p] = l[:len(l)-1]
+		return x
+	}
 	if p.New != nil {
 		return p.New()
 	}
 	return nil
 }
-func vstub_sync_Pool_Put(p *stdsync.Pool, x any) {}
+func vstub_sync_Pool_Put(p *stdsync.Pool, x any) {
+	if vstubPools == nil {
+		vstubPools = map[*stdsync.Pool][]any{}
+	}
+	vstubPools[p] = append(vstubPools[p], x)
+}
 
 // sync.Once without atomics (sequential model)
 var vstubOnceDone map[*stdsync.Once]bool
